@@ -57,6 +57,10 @@ def random_trace(rng, chains, steps, ploidy, n_base, pool_size):
     if pool_size > 1:
         pool[1] = pool[0].copy()
         pool[1][0, 0] ^= 1
+    if ploidy > 1:
+        # two haplotypes of one genotype that differ only in the leading / trailing site
+        pool[0][1] = pool[0][0]
+        pool[0][1, 0 if n_base < 3 or rng.random() < 0.7 else n_base - 1] ^= 1
     tr = np.empty((chains, steps, ploidy, n_base), dtype=np.int8)
     for c in range(chains):
         w = rng.dirichlet(np.ones(pool_size) * 0.7)
@@ -134,7 +138,11 @@ def check_assemble_trace_functionals(tier, seed):
                 t2 = AC.GenotypeMultiTrace(tr[list(perm)], np.zeros((chains, steps))).burn(burn)
                 vals.add(int(t2.replicate_incongruence(thr)))
             if vals != {exp}:
-                bad("rt/assemble_replicate_incongruence", "mchap.assemble.classes.GenotypeMultiTrace.replicate_incongruence", dict(inp, threshold=thr, ploidy=ploidy), sorted(vals), exp, "0 = qualifying chains agree on the set of haplotypes, 1 = they differ, 2 = their union has more haplotypes than the ploidy; evaluated for every order of the chains")
+                # the 1-vs-2 ('putative CNV') distinction is reported under its own key (known finding F9);
+                # a wrong 0-vs-nonzero decision is a different violation
+                only_cnv = exp in (1, 2) and vals <= {1, 2}
+                key = "rt/assemble_incongruence_cnv_flag_depends_on_chain_order" if only_cnv else "rt/assemble_replicate_incongruence"
+                bad(key, "mchap.assemble.classes.GenotypeMultiTrace.replicate_incongruence", dict(inp, threshold=thr, ploidy=ploidy), sorted(vals), exp, "0 = qualifying chains agree on the set of haplotypes, 1 = they differ, 2 = their union has more haplotypes than the ploidy; evaluated for every order of the chains")
         if len(samples) < 2 and n_base < 10:
             samples.append({"shape": list(tr.shape), "burn": burn, "distinct_genotypes": len(post)})
     return {"bound": "%d seeded random traces" % reps, "evaluations": ev, "distinct_nontrivial": nontriv, "failures": fails, "samples": samples, "exhaustive": False}
@@ -162,6 +170,17 @@ def check_call_trace_functionals(tier, seed):
             w = rng.dirichlet(np.ones(len(pool)) * 0.7)
             for s in range(steps):
                 tr[c, s] = pool[int(rng.choice(len(pool), p=w))]
+        if rep % 3 == 0 and ploidy >= 3:
+            # the most probable genotype is NOT in the best-supported allele set:
+            # support {0,1} split over several dosages outweighs the single genotype of support {0,2}
+            n_allele = max(n_allele, 3)
+            chains, steps = 1, 10
+            ga = np.sort(np.array([0] * (ploidy - 1) + [2]))
+            doses = [np.sort(np.array([0] * k + [1] * (ploidy - k))) for k in range(1, ploidy)]
+            seq = [ga] * 4 + [doses[i % len(doses)] for i in range(6)]
+            if len(doses) == 2:
+                seq = [ga] * 4 + [doses[0]] * 3 + [doses[1]] * 3
+            tr = np.array([[seq[i] for i in rng.permutation(10)]], dtype=np.int64)
         burn = int(rng.integers(0, steps))
         inp = {"trace": tr.tolist(), "burn": burn, "n_allele": n_allele}
         kept = [tuple(int(x) for x in tr[c, s]) for c in range(chains) for s in range(burn, steps)]
